@@ -53,6 +53,7 @@ enum Meth {
 
 struct World {
     nodes: RefCell<Vec<N>>,
+    graphs: RefCell<Vec<Graph<u64, i64, u64>>>,
     /// pending script: (invocation index, step tokens), consumed by the next loop/search
     script: RefCell<Vec<(usize, Vec<String>)>>,
 }
@@ -196,10 +197,360 @@ macro_rules! with_method {
     }};
 }
 
+
+// ---------------------------------------------------------------------------
+// container / scc / dot / serde channel
+// ---------------------------------------------------------------------------
+type Gr = Graph<u64, i64, u64>;
+
+fn order_str(g: &Gr) -> String {
+    let mut s = String::from("ord [");
+    for (i, (k, _)) in g.iter().enumerate() {
+        if i > 0 {
+            s.push(' ');
+        }
+        s.push_str(&format!("{}", k));
+    }
+    s.push(']');
+    s
+}
+
+fn keys_str(v: &[N]) -> String {
+    v.iter().map(|n| format!("{}", n.key())).collect::<Vec<_>>().join(" ")
+}
+
+/// text of a DOT export -> canonical tokens (whitespace is not part of the property)
+fn dot_tokens(text: &str) -> String {
+    let mut out = Vec::new();
+    for line in text.lines() {
+        let l = line.trim();
+        if l.is_empty() || l == "digraph {" || l == "}" {
+            continue;
+        }
+        if let Some(pos) = l.find(" -> ") {
+            let (a, rest) = l.split_at(pos);
+            let rest = &rest[4..];
+            let (b, attrs) = match rest.find(' ') {
+                Some(p) => (&rest[..p], rest[p + 1..].trim()),
+                None => (rest, ""),
+            };
+            if attrs.is_empty() {
+                out.push(format!("E:{}>{}", a, b));
+            } else {
+                out.push(format!("E:{}>{}:{}", a, b, attrs));
+            }
+        } else if l.contains("=\"") && !l.contains('[') {
+            out.push(format!("G:{}", l));
+        } else {
+            let (a, attrs) = match l.find(' ') {
+                Some(p) => (&l[..p], l[p + 1..].trim()),
+                None => (l, ""),
+            };
+            if attrs.is_empty() {
+                out.push(format!("N:{}", a));
+            } else {
+                out.push(format!("N:{}:{}", a, attrs));
+            }
+        }
+    }
+    out.join(" ")
+}
+
+/// `[ [ i1 i5 ] n t s"x" { s"k" i1 } d1.5 ]` -> JSON text
+fn tokens_to_json(toks: &[String]) -> String {
+    let mut s = String::new();
+    let mut need_comma: Vec<bool> = vec![false];
+    let mut in_map: Vec<(bool, usize)> = vec![(false, 0)];
+    for t in toks {
+        let closing = t == "]" || t == "}";
+        if !closing {
+            let (m, cnt) = *in_map.last().unwrap();
+            if *need_comma.last().unwrap() {
+                if m && cnt % 2 == 1 {
+                    s.push(':');
+                } else {
+                    s.push(',');
+                }
+            }
+        }
+        match t.as_str() {
+            "[" => {
+                s.push('[');
+                if let Some(l) = in_map.last_mut() {
+                    l.1 += 1;
+                }
+                *need_comma.last_mut().unwrap() = true;
+                need_comma.push(false);
+                in_map.push((false, 0));
+                continue;
+            }
+            "{" => {
+                s.push('{');
+                if let Some(l) = in_map.last_mut() {
+                    l.1 += 1;
+                }
+                *need_comma.last_mut().unwrap() = true;
+                need_comma.push(false);
+                in_map.push((true, 0));
+                continue;
+            }
+            "]" => {
+                s.push(']');
+                need_comma.pop();
+                in_map.pop();
+                continue;
+            }
+            "}" => {
+                s.push('}');
+                need_comma.pop();
+                in_map.pop();
+                continue;
+            }
+            "n" => s.push_str("null"),
+            "t" => s.push_str("true"),
+            "f" => s.push_str("false"),
+            _ => {
+                let (c, rest) = t.split_at(1);
+                match c {
+                    "i" | "d" => s.push_str(rest),
+                    "s" => s.push_str(&format!("\"{}\"", rest)),
+                    _ => s.push_str("null"),
+                }
+            }
+        }
+        if let Some(l) = in_map.last_mut() {
+            l.1 += 1;
+        }
+        *need_comma.last_mut().unwrap() = true;
+    }
+    s
+}
+
+fn doc_str(v: &serde_json::Value) -> String {
+    // canonical rendering of the emitted document: doc [[k v]..] [[u v e]..]
+    let mut s = String::from("doc");
+    if let Some(top) = v.as_array() {
+        for part in top {
+            s.push_str(" [");
+            if let Some(items) = part.as_array() {
+                for it in items {
+                    s.push('[');
+                    if let Some(xs) = it.as_array() {
+                        s.push_str(&xs.iter().map(|x| x.to_string()).collect::<Vec<_>>().join(" "));
+                    } else {
+                        s.push_str(&it.to_string());
+                    }
+                    s.push(']');
+                }
+            } else {
+                s.push_str(&part.to_string());
+            }
+            s.push(']');
+        }
+    } else {
+        s.push_str(&format!(" {}", v));
+    }
+    s
+}
+
+fn ser_value(g: &Gr, fmt: &str) -> Result<serde_json::Value, String> {
+    match fmt {
+        "json" => {
+            let text = serde_json::to_string(g).map_err(|e| e.to_string())?;
+            serde_json::from_str(&text).map_err(|e| e.to_string())
+        }
+        _ => {
+            let bytes = serde_cbor::to_vec(g).map_err(|e| e.to_string())?;
+            serde_cbor::from_slice(&bytes).map_err(|e| e.to_string())
+        }
+    }
+}
+
+fn de_graph(fmt: &str, json_text: &str) -> Result<Gr, String> {
+    match fmt {
+        "json" => serde_json::from_str::<Gr>(json_text).map_err(|e| e.to_string()),
+        _ => {
+            let v: serde_json::Value = serde_json::from_str(json_text).map_err(|e| format!("cannot build cbor: {}", e))?;
+            let bytes = serde_cbor::to_vec(&v).map_err(|e| e.to_string())?;
+            serde_cbor::from_slice::<Gr>(&bytes).map_err(|e| e.to_string())
+        }
+    }
+}
+
+fn exec_graph_step(w: &World, st: &[String]) -> Option<String> {
+    let gi = |i: &String| pusize(i);
+    Some(match st[0].as_str() {
+        "gnew" => {
+            w.graphs.borrow_mut().push(Graph::new());
+            "ok".to_string()
+        }
+        "gins" => guarded(|| {
+            let n = w.nodes.borrow()[pusize(&st[2])].clone();
+            format!("ok {}", w.graphs.borrow_mut()[gi(&st[1])].insert(n) as u8)
+        }),
+        "gget" => guarded(|| format!("get {}", okey(w.graphs.borrow()[gi(&st[1])].get(&pu64(&st[2]))))),
+        "gcon" => guarded(|| {
+            let gs = w.graphs.borrow();
+            let g = &gs[gi(&st[1])];
+            let a = g.get(&pu64(&st[2])).unwrap();
+            let b = g.get(&pu64(&st[3])).unwrap();
+            a.connect(&b, pu64(&st[4]));
+            "ok".to_string()
+        }),
+        "gidx" => guarded(|| {
+            let gs = w.graphs.borrow();
+            format!("idx {}", gs[gi(&st[1])][pu64(&st[2])].key())
+        }),
+        "ghas" => guarded(|| format!("has {}", w.graphs.borrow()[gi(&st[1])].contains(&pu64(&st[2])) as u8)),
+        "glen" => guarded(|| {
+            let gs = w.graphs.borrow();
+            format!("len {} emp {}", gs[gi(&st[1])].len(), gs[gi(&st[1])].is_empty() as u8)
+        }),
+        "grem" => guarded(|| match w.graphs.borrow_mut()[gi(&st[1])].remove(&pu64(&st[2])) {
+            Some(n) => format!("some {}", n.key()),
+            None => "none".to_string(),
+        }),
+        "gvec" => guarded(|| {
+            let gs = w.graphs.borrow();
+            let g = &gs[gi(&st[1])];
+            format!("{} res {}", order_str(g), keys_str(&g.to_vec()))
+        }),
+        "giter" => guarded(|| {
+            let gs = w.graphs.borrow();
+            let g = &gs[gi(&st[1])];
+            let v: Vec<N> = g.iter().map(|(k, n)| { assert!(k == n.key()); n.clone() }).collect();
+            format!("{} res {}", order_str(g), keys_str(&v))
+        }),
+        "gorph" => guarded(|| {
+            let gs = w.graphs.borrow();
+            let g = &gs[gi(&st[1])];
+            format!("{} res {}", order_str(g), keys_str(&g.orphans()))
+        }),
+        "gdot" => guarded(|| {
+            let gs = w.graphs.borrow();
+            let g = &gs[gi(&st[1])];
+            format!("{} dot {}", order_str(g), dot_tokens(&g.to_dot()))
+        }),
+        "gser" => guarded(|| {
+            let gs = w.graphs.borrow();
+            let g = &gs[gi(&st[1])];
+            match ser_value(g, &st[2]) {
+                Ok(v) => format!("{} {}", order_str(g), doc_str(&v)),
+                Err(e) => format!("ser-error {}", e),
+            }
+        }),
+        "grt" => guarded(|| {
+            let gs = w.graphs.borrow();
+            let g = &gs[gi(&st[1])];
+            let ord = order_str(g);
+            let back: Result<Gr, String> = match st[2].as_str() {
+                "json" => serde_json::to_string(g).map_err(|e| e.to_string()).and_then(|t| serde_json::from_str(&t).map_err(|e| e.to_string())),
+                _ => serde_cbor::to_vec(g).map_err(|e| e.to_string()).and_then(|b| serde_cbor::from_slice(&b).map_err(|e| e.to_string())),
+            };
+            match back {
+                Ok(g2) => format!("{} de ok {}", ord, graph_snap(&g2)),
+                Err(_) => format!("{} de err", ord),
+            }
+        }),
+        "gde" => guarded(|| {
+            let text = tokens_to_json(&st[2..]);
+            match de_graph(&st[1], &text) {
+                Ok(g2) => format!("de ok {}", graph_snap(&g2)),
+                Err(e) => {
+                    if e.starts_with("cannot build cbor") {
+                        "de unbuildable".to_string()
+                    } else {
+                        "de err".to_string()
+                    }
+                }
+            }
+        }),
+        "gdebytes" => guarded(|| {
+            // raw (possibly mutated) bytes given as hex: never panic; Ok => the graph must be sane
+            let bytes: Vec<u8> = (0..st[2].len() / 2).map(|i| u8::from_str_radix(&st[2][2 * i..2 * i + 2], 16).unwrap()).collect();
+            let r: Result<Gr, String> = match st[1].as_str() {
+                "json" => serde_json::from_slice::<Gr>(&bytes).map_err(|e| e.to_string()),
+                _ => serde_cbor::from_slice::<Gr>(&bytes).map_err(|e| e.to_string()),
+            };
+            match r {
+                Ok(g2) => format!("de ok {}", graph_snap(&g2)),
+                Err(_) => "de err".to_string(),
+            }
+        }),
+        _ => return None,
+    })
+}
+
+fn graph_snap(g: &Gr) -> String {
+    let mut v = g.to_vec();
+    v.sort_by_key(|n| *n.key());
+    let mut s = String::new();
+    for n in &v {
+        s.push_str(&format!("[{} {} out", n.key(), n.value()));
+        for e in n.iter_out() {
+            s.push_str(&fmt_edge(&e));
+        }
+        s.push_str(" in");
+        for e in n.iter_in() {
+            s.push_str(&fmt_edge(&e));
+        }
+        s.push(']');
+    }
+    s
+}
+
+fn exec_graph_step_flavour(w: &World, st: &[String]) -> Option<String> {
+    let gi = |i: &String| pusize(i);
+    Some(match st[0].as_str() {
+        "groots" => guarded(|| {
+            let gs = w.graphs.borrow();
+            let g = &gs[gi(&st[1])];
+            format!("{} res {}", order_str(g), keys_str(&g.roots()))
+        }),
+        "gleaves" => guarded(|| {
+            let gs = w.graphs.borrow();
+            let g = &gs[gi(&st[1])];
+            format!("{} res {}", order_str(g), keys_str(&g.leaves()))
+        }),
+        "gscc" => guarded(|| {
+            let gs = w.graphs.borrow();
+            let g = &gs[gi(&st[1])];
+            let ord = order_str(g);
+            let comps = g.scc();
+            let mut s = format!("{} comps", ord);
+            for c in comps {
+                s.push_str(&format!(" [{}]", keys_str(&c)));
+            }
+            s
+        }),
+        "gdota" => guarded(|| {
+            let gs = w.graphs.borrow();
+            let g = &gs[gi(&st[1])];
+            let (ga, na, ea) = (pu64(&st[2]), pu64(&st[3]), pu64(&st[4]));
+            let text = dot_attr!(g, ga, na, ea);
+            format!("{} dot {}", order_str(g), dot_tokens(&text))
+        }),
+        _ => return None,
+    })
+}
+
 pub fn run_case(case: &Case, sink: &mut dyn FnMut(usize, String)) {
-    let w = World { nodes: RefCell::new(Vec::new()), script: RefCell::new(Vec::new()) };
+    let w = World { nodes: RefCell::new(Vec::new()), graphs: RefCell::new(Vec::new()), script: RefCell::new(Vec::new()) };
     for (si, st) in case.steps.iter().enumerate() {
+        // `only:<flavour>` restricts a step to one flavour (API not common to the twins)
+        let mut st: &[String] = st;
+        if st[0].starts_with("only:") {
+            if &st[0][5..] != FLAVOUR {
+                sink(si, "skip".to_string());
+                continue;
+            }
+            st = &st[1..];
+        }
         let obs = if let Some(o) = exec_node_step(&w, st) {
+            o
+        } else if let Some(o) = exec_graph_step(&w, st) {
+            o
+        } else if let Some(o) = exec_graph_step_flavour(&w, st) {
             o
         } else {
             match st[0].as_str() {
